@@ -92,11 +92,11 @@ AUT_TB = [KERNEL, EXTRACT, HARNESS,
           "fed to the checkers is computed by unverified code and only checked"]
 AUT_ASSUME = COMMON_ASSUMPTIONS + [
     "the 64-bit FxHash used by AutomatonTraverser::visit is modelled by the restricted binding itself (hash collisions are not exhibited)",
-    "port graphs: the host side (walk_path, list_bind_options, root_candidates.rs, predicates, HashMap bindings) is modelled in Model/DomPG.v and "
-    "compared with the implementation (sub-check pgm: list_bind_options on grown binding maps, single matcher, traversal on dumped automata, as "
-    "multisets: hash iteration orders inside root_candidates.rs are not modelled); no theorem is stated about that model; the pattern side "
-    "(line_partition, try_to_constraint_vec) is taken from the implementation; occurrences are judged by the embedding oracle, with the "
-    "known-finding classes of KNOWN_FINDINGS.json"]
+    "port graphs: host side (walk_path, list_bind_options, root_candidates.rs, predicates, HashMap bindings: Model/DomPG.v) and pattern side "
+    "(line_partition, constraint_vec: Model/DomPGPattern.v) are modelled and compared with the implementation (sub-check pgm: pg-cvec, pg-opts, "
+    "pg-single, pg-run, as multisets / with not-equal arguments as sets: hash iteration orders inside root_candidates.rs and constraint_vec are not "
+    "modelled); certificates wf/arity/lab_ok/cert_complete are evaluated on every port-graph dump; occurrences are judged by the brute-force "
+    "embedding oracle, with the known-finding classes of KNOWN_FINDINGS.json (D5, D6 refuted on the model with the same witnesses)"]
 
 def aut_prop(level, explanation, technique, subs):
     return {"subs": subs, "level": level, "rule": AUT_RULE, "trusted_base": AUT_TB, "assumptions": AUT_ASSUME,
